@@ -3,6 +3,7 @@
 from __future__ import annotations
 
 import ast
+import asyncio
 from collections import OrderedDict
 import io
 import logging
@@ -113,8 +114,9 @@ class ServiceDecorator(Decorator):
                 return None
 
         task = Function.create_task(do_service_call(self.dm.eval_func, ast_ctx, func_args), ast_ctx=ast_ctx)
-        await task
-        return task.result()
+        # the run is a task of its own: if it is cancelled (task.cancel, task.unique) the caller goes on
+        await asyncio.wait([task])
+        return None if task.cancelled() else task.result()
 
     async def start(self) -> None:
         """Register the service under each of its names."""
